@@ -1433,4 +1433,18 @@ class ClientSession(Suite):
 
 
 SUITES = [WsgiAsgi(), Client(), ClientPair(), ClientSession()]
-KNOWN = {}
+import re as _re
+
+_HUGE_NUMBER = _re.compile(r'[0-9]{4301}')
+
+
+def _known_f33b(suite_name, case, violation):
+    """F33b: a port of more than 4300 digits in Forwarded / Host: parse_host() raises ValueError (int() limit); the accessors
+    that go through it raise on one stack and read a server-supplied value on the other."""
+    if violation.kind != 'digest_mismatch' or "'$raised': 'ValueError'" not in violation.detail:
+        return False
+    # (quoted-pairs may sit between the digits of a quoted Forwarded value)
+    return any(_HUGE_NUMBER.search(v.replace('\\', '')) for _n, v in case.get('headers') or () if isinstance(v, str))
+
+
+KNOWN = {'F33b': _known_f33b}
